@@ -136,7 +136,7 @@ def swan_numeric_path(env, units, dirkind, dirs, blocks, nt):
     filedirs = [30.0, 150.0, 270.0] if dirs == "sorted" else [270.0, 30.0, 150.0]
     locs = [(150.0, -30.0), (151.5, -30.0), (150.0, -31.25)]
     kinds = BLOCKS[blocks]
-    tmp = tempfile.mkdtemp(prefix="vt-c13-")
+    tmp = tempfile.mkdtemp(prefix="vt-c13-", dir=os.environ.get("VT_SCRATCH") or None)
     fn = os.path.join(tmp, "reference.spec")
     tok = _ExactTokens()
     try:
